@@ -6,7 +6,8 @@ import sys
 
 import logging
 
-sys.path.insert(0, "/repo")
+REPO = os.environ.get("VERIF_REPO", "/repo")  # the registered commands use /repo itself
+sys.path.insert(0, REPO)
 logging.disable(logging.CRITICAL)
 sys.setrecursionlimit(20000)
 
